@@ -23,6 +23,9 @@ def outcome_class(ans):
     return '%s/%s/%s' % (a['S']['status'], oc(a['F']), oc(a['E']))
 
 
+MEMCHECK_PROPS = {'C01', 'C02', 'C03', 'C13', 'C14', 'C16'}
+
+
 def hide_known_witnesses(cs, u, prop):
     """witness types of recorded findings are exercised only by the checks of the properties they violate"""
     def hidden(m):
@@ -152,11 +155,23 @@ class CaseSpec:
                 distinct.add((shape_of(tterm), meta.get('family', meta.get('kind')), oc))
             if len(samples) < 6 and meta.get('kind') not in ('type',) and k % max(1, n // 6) == 0:
                 samples.append({'line': line[:300], 'rust_type': rust, 'impl': ia[:400], 'model': ma[:400]})
+        # thorough tier, in-memory properties: a sample of the cases once more under valgrind memcheck
+        mc = None
+        if tier == 'thorough' and prop in MEMCHECK_PROPS and not replay and not crashes:
+            body = [l for l in cs.lines if l.split(' ')[0] not in ('type', 'stype')]
+            n_mc, bad = core.memcheck(header, body, budget=600, seed=seed)
+            mc = {'lines_run': n_mc, 'errors': 0 if bad is None else 1}
+            if bad is not None:
+                failures.append(({'op': 'memcheck', 'type_shape': '', 'rust_type': '', 'outcome': 'memory-error', 'clause': 'memcheck'},
+                                 {'why': 'memcheck: valgrind reports an invalid memory access, an invalid free or a definitely lost block while the implementation processes these lines',
+                                  'lines': bad['lines'], 'report': bad['report'], 'meta': {'kind': 'memcheck'}}))
         cov = {'evaluations': n, 'distinct_nontrivial': len(distinct), 'distinct_set': sorted(distinct),
                'rule': self.rule + ' Distinct = distinct (type shape, case family, outcome class) triples over cases whose value is not the empty/zero one.',
                'samples': samples, 'traces_validated_against_impl': min(len(impl), len(model)),
                'input_distribution': {'families': cs.dist, 'outcomes': outcomes, 'types': len(u.types),
                                       'derived_definitions': len(u.defs)}}
+        if mc is not None:
+            cov['memcheck'] = mc
         return {'failures': failures, 'disagreements': disagreements, 'coverage': cov}
 
 
